@@ -281,3 +281,15 @@ Proof. vm_compute. reflexivity. Qed.
 Example rfc6455_accept :
   accept_of sha1_impl (lit "dGhlIHNhbXBsZSBub25jZQ==") = lit "s3pPLMBiTxaQ9kYGzzhZRbK+xOo=".
 Proof. vm_compute. reflexivity. Qed.
+
+(* multi-connection scenarios: the trace of (countConnections, per-connection OPEN?) after every operation *)
+Definition multi_case := (N * list fop * list (N * list bool))%type.
+Fixpoint f_trace (mx : N) (st : fstate) (ops : list fop) : list (N * list bool) :=
+  match ops with
+  | [] => []
+  | o :: r => let st' := f_step mx st o in
+              (f_count st', map (fun s => match s with KOpen => true | KGone => false end) (f_conns st')) :: f_trace mx st' r
+  end.
+Definition multi_case_ok (c : multi_case) : bool :=
+  let '(mx, ops, expect) := c in
+  list_eqb (pair_eqb N.eqb (list_eqb Bool.eqb)) (f_trace mx f_init ops) expect.
